@@ -31,7 +31,7 @@ var (
 	spanNames  = []string{"op1", "op2", "GET /", "x", "2"}
 	services   = []string{"svcA", "svcB", "x"}
 	regexes    = []string{"x", "^x", "x$", "^x$", "x|y", "^(x|y)$", ".*", "^$", "[0-9]+", `\d+`, `^\d+$`, "a.b", "G.T", "^x.*", "(?i)get", "o+p", `a\\b`, `a"b`}
-	numConsts  = []string{"0", "1", "2", "3", "10", "-3", "1.5", "2.0", "2.", "-1.5", "100", "2.000000"}
+	numConsts  = []string{"0", "0", "1", "2", "3", "10", "-3", "-2", "-1", "1.5", "2.0", "2.", "-1.5", "100", "2.000000"}
 	durConsts  = []refeval.TQValue{{Kind: "dur", Num: "1", Unit: "s"}, {Kind: "dur", Num: "1.5", Unit: "s"}, {Kind: "dur", Num: "2", Unit: "s"}, {Kind: "dur", Num: "1500", Unit: "ms"}, {Kind: "dur", Num: "1", Unit: "ms"}, {Kind: "dur", Num: "1.5", Unit: "ms"}, {Kind: "dur", Num: "500", Unit: "ns"}, {Kind: "dur", Num: "1", Unit: "us"}, {Kind: "dur", Num: "0.5", Unit: "us"}, {Kind: "dur", Num: "1", Unit: "m"}, {Kind: "dur", Num: "1", Unit: "h"}, {Kind: "dur", Num: "0", Unit: "s"}, {Kind: "dur", Num: "0.001", Unit: "s"}}
 	spanDurs   = []int64{0, 500, 1000, 1_000_000, 1_500_000, 1_000_000_000, 1_500_000_000, 2_000_000_000, 60_000_000_000, 3_600_000_000_000}
 	strOps     = []string{"=", "!=", "=~", "!~"}
@@ -390,9 +390,106 @@ func genSpreadCase(rt *rapid.T) searchCase {
 	return c
 }
 
+// ---- the "or spread" class --------------------------------------------------------------------
+//
+// `{A} || {B}` where A and B look at different attributes, 4–8 traces of 2–4 spans whose
+// spans match A only, B only, both or neither at different (distinct) times, and a limit
+// (1–3) usually smaller than the number of traces one operand alone matches. A returned
+// trace must carry every in-window span matched by either operand (older span matching
+// only B, newest span matching only A, ...). B's pool holds the numeric comparisons with
+// zero and negative thresholds; `b` values are numeric, non-numeric, empty or missing (a
+// non-numeric value satisfies no numeric comparison).
+// Chains of three operands are not generated here: every chain of >= 3 selectors is in the
+// region of the known finding C11-chain-drops-sel (statement rejected by ClickHouse).
+
+var (
+	orTermsA = []refeval.TQTerm{
+		{Label: ".a", Op: "=", Val: refeval.TQValue{Kind: "str", Str: "x"}},
+		{Label: "span.a", Op: "!=", Val: refeval.TQValue{Kind: "str", Str: "x"}},
+		{Label: ".a", Op: "=~", Val: refeval.TQValue{Kind: "str", Str: "^(x|y)$"}},
+		{Label: "name", Op: "=", Val: refeval.TQValue{Kind: "str", Str: "op1"}},
+	}
+	orTermsB = []refeval.TQTerm{
+		{Label: ".b", Op: ">", Val: refeval.TQValue{Kind: "num", Num: "-2"}},
+		{Label: ".b", Op: ">=", Val: refeval.TQValue{Kind: "num", Num: "0"}},
+		{Label: "resource.b", Op: "<", Val: refeval.TQValue{Kind: "num", Num: "0"}},
+		{Label: ".b", Op: "<=", Val: refeval.TQValue{Kind: "num", Num: "-1"}},
+		{Label: "span.b", Op: "!=", Val: refeval.TQValue{Kind: "num", Num: "0"}},
+		{Label: ".b", Op: ">=", Val: refeval.TQValue{Kind: "num", Num: "2"}},
+		{Label: "duration", Op: ">=", Val: refeval.TQValue{Kind: "dur", Num: "1", Unit: "s"}},
+	}
+	orValsB = []string{"-3", "-1", "0", "2", "5", "abc", "", "1x"}
+)
+
+func genOrOperand(rt *rapid.T, pool []refeval.TQTerm) refeval.TQSelector {
+	t := pick(rt, pool, "orTerm")
+	e := &refeval.TQExpr{Heads: []refeval.TQHead{{Term: &t}}}
+	if chance(rt, 25, "orSecondTerm") {
+		t2 := pick(rt, pool, "orTerm2")
+		e.Heads = append(e.Heads, refeval.TQHead{Term: &t2})
+		e.Ops = []string{pick(rt, []string{"||", "&&"}, "orInnerOp")}
+	}
+	s := refeval.TQSelector{Expr: e}
+	if chance(rt, 12, "orAgg") {
+		s.Agg = &refeval.TQAgg{Fn: "count", Cmp: pick(rt, []string{">=", "<", "="}, "orAggCmp"), Num: pick(rt, []string{"1", "2"}, "orAggNum")}
+	}
+	return s
+}
+
+func genOrSpreadCase(rt *rapid.T) searchCase {
+	c := searchCase{}
+	a, b := genOrOperand(rt, orTermsA), genOrOperand(rt, orTermsB)
+	if chance(rt, 50, "orSwap") {
+		a, b = b, a
+	}
+	c.Q = refeval.TQScript{Sels: []refeval.TQSelector{a, b}, Ops: []string{"||"}}
+	c.Text = c.Q.String()
+	c.From, c.To = genWindow(rt)
+	from := c.From * 1e9
+	nt := rapid.IntRange(4, 8).Draw(rt, "orTraces")
+	used := map[int64]bool{}
+	for ti := 0; ti < nt; ti++ {
+		salt := rapid.Uint16().Draw(rt, "traceSalt")
+		tr := refeval.TQTrace{ID: fmt.Sprintf("%016x%012x%04x", uint64(ti+1)*0x9E3779B97F4A7C15, ti+1, salt)}
+		ns := rapid.IntRange(2, 4).Draw(rt, "orSpans")
+		for si := 0; si < ns; si++ {
+			// distinct start times over the whole window (no ties between traces)
+			ts := from + int64(spread(rt, "orTs")%uint64(windowWidthS*1000))*1_000_000
+			for used[ts] {
+				ts += 1
+			}
+			used[ts] = true
+			if chance(rt, 6, "orOutside") {
+				ts = from - 1 - int64(spread(rt, "orBefore")%50)*1_000_000_000
+			}
+			sp := refeval.TQSpan{
+				ID:      fmt.Sprintf("%08x%06x%02x", ti+1, si+1, 0),
+				TS:      ts,
+				Dur:     pick(rt, []int64{0, 1_000_000, 1_000_000_000, 2_000_000_000}, "dur"),
+				Name:    pick(rt, []string{"op1", "op2"}, "spanName"),
+				Service: "svcA",
+			}
+			if chance(rt, 70, "hasA") {
+				sp.Attrs = append(sp.Attrs, refeval.TQKV{K: "a", V: pick(rt, []string{"x", "y", "z"}, "aVal")})
+			}
+			if chance(rt, 75, "hasB") {
+				sp.Attrs = append(sp.Attrs, refeval.TQKV{K: "b", V: pick(rt, orValsB, "bVal")})
+			}
+			tr.Spans = append(tr.Spans, sp)
+		}
+		c.DB.Traces = append(c.DB.Traces, tr)
+	}
+	c.Limit = pick(rt, []int{1, 1, 2, 2, 3}, "limit")
+	c.Complexity = int64(pick(rt, []int{0, 5, 5, 5, 9_999_999, 25_000_000}, "complexity"))
+	return c
+}
+
 func genSearchCase(rt *rapid.T) searchCase {
-	if chance(rt, 25, "portionSpread") {
+	switch n := int(spread(rt, "searchClass") % 100); {
+	case n < 22:
 		return genSpreadCase(rt)
+	case n < 40:
+		return genOrSpreadCase(rt)
 	}
 	c := searchCase{Q: genScript(rt)}
 	c.Text = c.Q.String()
